@@ -27,8 +27,13 @@ def section(h):
     rec('X', h)
 
 
+# contenders come and go: some processes do fewer rounds (and exit while the others still contend), and every
+# process now and then drops its FileLock object and makes a fresh one for the same path
+rounds = max(1, rounds * (2 + pid % 3) // 4)
 for r in range(rounds):
     h = pid * 100000 + r
+    if r and rng.random() < 0.15:
+        lock = FileLock(lockp, reentrant=(pid % 3 == 0))
     form = rng.choice(['acquire', 'with', 'ctx', 'timed'])
     if form == 'acquire':
         if lock.acquire():
